@@ -65,8 +65,17 @@ def run(tier, seed, replay=None):
             samples.append([x[:160] for x in lines if x.startswith("RW mal-1") ][:3])
         # (2) every command x arities x hostile arguments, in process
         k = 20 if tier == "thorough" else 1
-        for tag, kw in [("hostile", dict(profile="hostile", cases=12 * k, length=150, backend="mem", seed=seed * 1000 + 11)),
-                        ("hostilem", dict(profile="hostilem", cases=10 * k, length=150, backend="peb", seed=seed * 1000 + 12))]:
+        batches17 = [("hostile", dict(profile="hostile", cases=12 * k, length=150, backend="mem", seed=seed * 1000 + 11)),
+                     ("hostilem", dict(profile="hostilem", cases=10 * k, length=150, backend="peb", seed=seed * 1000 + 12))]
+        import glob
+        corpus = sorted(glob.glob(os.path.join(C.VERIF, "corpus", PID, "*.script")))
+        if corpus:
+            cscript = os.path.join(d, "corpus.script")
+            with open(cscript, "w") as f:
+                for cf in corpus:
+                    f.write(open(cf).read() + "\n")
+            batches17.insert(0, ("corpus", dict(script=cscript)))
+        for tag, kw in batches17:
             r = T.TraceRun(d, tag).run(**kw)
             if not r.ok:
                 out.violation({"property": PID, "seed": seed, "what": "hostile run died: " + r.err[:500]})
